@@ -351,6 +351,17 @@ def mutants(s, rng):
             c.rfc.index = list(ch.index)
     m('top-chain-64-links', links64)
 
+    def reorder_chains(c):
+        # the same signature with its aggregation chains written in another order: the order of the elements carries no meaning, the verdict is
+        # that of the honest signature (the reference parser orders chains by the length of their index)
+        if n < 2:
+            return False
+        order = list(range(n))
+        while order == list(range(n)):
+            rng.shuffle(order)
+        c.chains = [c.chains[i] for i in order]
+    m('chains-written-in-another-order', reorder_chains)
+
     def drop_chain(c):
         if n < 2:
             return False
